@@ -14,6 +14,8 @@ from tiv.mutate import M
 from tiv.sem import expand, trace, same, same_bool
 
 RULES = {
+    "MEMO": "memo safety (shared, rules/common.py): a memoised function in this property's files (or called from them) is a function of its "
+            "arguments only (no terminal/ambient/receiver state outside the key) and no caller mutates its result in place",
     "R1": "only _close_image closes a source-derived image: every `.close()` / `with` on an image in term_image/image/* has a receiver created "
           "in that function (Image.open/new/frombytes, convert, resize, BytesIO, open) - or is the single `img.close()` inside _close_image, guarded by "
           "`img is not self._source` (a PIL image supplied by the caller is never closed)",
@@ -282,10 +284,8 @@ def run(ck, m):
     save = [st for t, st in stores_in(ast.Module(body=da.body, type_ignores=[])) if isinstance(t, ast.Name) and isinstance(st, ast.Assign) and norm(st.value) == "self._seek_position"]
     ck.ob("R6", da, tr is not None and len(save) == 1 and save[0].lineno < tr.lineno and any(norm(s) == f"self._seek_position = {norm(save[0].targets[0])}" for s in tr.finalbody),
           "an animated draw must save the image's current frame before its try and restore it in the finally", stmt="_display_animated: current frame saved and restored")
-    rt = next((s for s in rn.body if isinstance(s, ast.Try) and s.finalbody), None)
-    sv = [s for s in rn.body if isinstance(s, ast.Assign) and norm(s.value) == "self._size" and rt is not None and s.lineno < rt.lineno]
-    ok = bool(sv) and any(isinstance(s, ast.If) and same_bool(rn, s.test, f"isinstance({norm(sv[0].targets[0])}, Size)") and any(norm(x) in (f"self.size = {norm(sv[0].targets[0])}", f"self._size = {norm(sv[0].targets[0])}") for x in s.body) for s in rt.finalbody)
-    ck.ob("R6", rn, ok, "_renderer must restore a dynamic size in finally (rendering never fixes a dynamic size)", stmt="_renderer: dynamic size restored")
+    from rules.common import rule_renderer_restores_size
+    rule_renderer_restores_size(ck, m, "R6")
     writers = set()
     for rel, _q, t, st in m.stores():
 
@@ -294,6 +294,9 @@ def run(ck, m):
                 writers.add(f"{rel}::{getattr(st, '_q', '')}")
     allowed = {f"{CM}::BaseImage.size#2", f"{CM}::BaseImage.set_size", "widget/_urwid.py::UrwidImage.render", f"{CM}::BaseImage.size"}
     ck.ob("R6", rn, writers <= allowed, f"`_size` is written in {sorted(writers - allowed)}; only the size setter, set_size and (documented) UrwidImage.render may", stmt="writers of _size")
+
+    from rules.common import rule_memo_safety
+    rule_memo_safety(ck, m, "MEMO", "C11")
 
 
 def _anc(n):
